@@ -28,7 +28,7 @@ LEVEL = "exploration"
 RUNS = {"quick": 30000, "thorough": 800000}
 WALL = {"quick": 240, "thorough": 1500}
 PARTITIONS = [{"name": "default", "env": {}}]
-FAULT_KINDS = ["reorder", "batch_split", "interleave", "axis_point", "origin_point", "signed_zero", "outside_radius",
+FAULT_KINDS = ["extreme_magnitude", "reorder", "batch_split", "interleave", "axis_point", "origin_point", "signed_zero", "outside_radius",
                "wrong_dimension_probe", "projection", "transformed_path"]
 RULE = ("one run = one special class (polar, radial 2-D/3-D, azimuthal, spherical, spherical-surface, cylindrical) "
         "over seeded bins, a stream of <= 24 Cartesian points drawn from axis/origin/signed-zero/quadrant pools, and "
@@ -89,6 +89,17 @@ def generate(rng, seed, part):
            "r_edges": rng.choice([[0.0, 1.0, 2.0, 4.0, 8.0], [0.0, 0.5, 5.0], [1.0, 2.0, 3.0], [0.0, 20.0]]),
            "z_edges": rng.choice([[-4.0, -1.0, 0.0, 1.0, 4.0], [-10.0, 10.0], [0.0, 1.0, 2.0]]),
            "paths": paths, "weights": weights}
+    if rng.random() < 0.08:
+        # "all finite points": the same scene at an extreme magnitude (the squares of the coordinates are not
+        # representable, the radius is); powers of two, so the geometry is bit-for-bit the same
+        scale = rng.choice([2.0 ** 600, 2.0 ** -600, 2.0 ** 520, 2.0 ** -480])
+        if vtype == "f32":
+            cfg["vtype"] = vtype = "f64"
+            # (pts were quantised to float32 above; still exact doubles)
+        pts = [[x * scale for x in p] for p in pts]
+        cfg["r_edges"] = [e * scale for e in cfg["r_edges"]]
+        cfg["z_edges"] = [e * scale for e in cfg["z_edges"]]
+        cfg["scale"] = scale
     ops = []
     n_ep = rng.randint(1, 2) if n > 2 else 1
     cut = rng.randint(1, n - 1) if n_ep == 2 else n
@@ -195,9 +206,9 @@ def check_transform(ctx, name, p, t):
     """Range constraints and inverse formulas for one point."""
     p = [float(x) for x in p]
     t = np.atleast_1d(np.asarray(t, dtype=float)).tolist()
-    r3 = math.sqrt(sum(x * x for x in p))
+    r3 = math.hypot(*p)  # (scaled internally: no overflow / underflow of the squares)
     rho = math.hypot(p[0], p[1])
-    tol = 1e-9 * (1 + r3)
+    tol = 1e-9 * r3  # relative: points of magnitude 1e-180 are judged as strictly as points of magnitude 1
 
     def bad(msg):
         ctx.violation("C15/true-coordinates", f"C15/transform/{name}/{msg.split(' ')[0]}",
@@ -253,6 +264,8 @@ def execute(plan, ctx):
     bags = {}
     poisoned = set()
     ctx.state(name, cfg["phi_bins"], cfg["theta_bins"], len(cfg["r_edges"]), weights is not None)
+    if cfg.get("scale"):
+        ctx.fault("extreme_magnitude")
     used_paths = set()
 
     # classify points (fault accounting)
